@@ -26,6 +26,7 @@ t_OORD == Hdr.oord
 t_KORD == Hdr.kord
 t_GENVALS == [o \in DOMAIN Hdr.genvals |-> [k |-> Hdr.genvals[o].k, p |-> Hdr.genvals[o].p]]
 t_DECI == Hdr.deci
+t_UNBOND == Hdr.unbond
 t_PREC == "1000000000000000000"
 t_DEVS == {Hdr.devs[i] : i \in DOMAIN Hdr.devs}
 
